@@ -336,9 +336,13 @@ def trees_agree(a, b, stats):
             if a['q'] == b['q']:
                 return True
             # the code rounds the double product, the model the exact product: they may straddle a rounding boundary
-            if abs(a['q'] - b['q']) <= Fraction(11, 10 ** 7) * abs(b['q']):
-                stats['straddle'] += 1
-                return True
+            # one unit in the sixth significant digit of the model's decimal
+            if b['q'] != 0:
+                e = math.floor(math.log10(abs(float(b['q']))))
+                ulp6 = Fraction(10) ** (e - 5)
+                if abs(a['q'] - b['q']) <= ulp6 * Fraction(1001, 1000):
+                    stats['straddle'] += 1
+                    return True
             return False
         if 'num' in a and 'num' in b:
             return a['num'] == b['num']
@@ -361,6 +365,7 @@ def compare_batch(ctx, batch):
         if tree is None:
             continue          # the implementation's text did not load: already a violation above
         mt = model_tree(rep['tree'])
+        before_straddles = stats['straddle']
         if not trees_agree(tree, mt, stats):
             ctx.disagree('corr:c18.format', inp, json.loads(json.dumps(tree, default=str)), json.loads(json.dumps(mt, default=str)))
             continue
@@ -370,7 +375,10 @@ def compare_batch(ctx, batch):
             ctx.disagree('corr:c18.roundtrip', inp, loaded, rep['loaded'])
         else:
             from .c12 import cmp_model_corr
-            if not cmp_model_corr(loaded, rep['loaded']['ok']):
+            # where code and model wrote different sixth digits (a rounding-boundary straddle) what is read back differs by
+            # that digit too
+            rel = 1e-9 if stats['straddle'] == before_straddles else 2e-5
+            if not cmp_model_corr(loaded, rep['loaded']['ok'], rel):
                 ctx.disagree('corr:c18.roundtrip', inp, loaded, rep['loaded']['ok'])
     ctx.count('rounding_straddles', stats['straddle'])
     if stats['straddle'] > max(3, len(batch) // 200):
@@ -435,6 +443,10 @@ def run(ctx):
                 check_one(ctx, fields_of_obj(o), u, batch, 'shipped:%s:%s' % (libname, g))
     compare_batch(ctx, batch)
     check_float_assumption(ctx, rng)
+    from .c12 import reach_floor
+    reach_floor(ctx, ['formatted', 'corr_c18.format', 'corr_c18.roundtrip', 'table_temperatures_rounded', 'shipped_groups'])
+    if ctx.stats['shipped_groups'] < 500:
+        raise common.MachineryError('only %d shipped groups were found' % ctx.stats['shipped_groups'])
 
 
 def check_float_assumption(ctx, rng):
